@@ -1,0 +1,51 @@
+//go:build verif
+
+package keeper
+
+// Contracts for the deductive checker in /verif (comment-only; compiled only with -tags verif).
+// Property C02, keeper side, read direction (agent V): Keeper.GetAccount is the inverse view of the proved SetAccount -
+// nonce = account sequence, balance = the bank balance in the EVM denomination, code hash of an EthAccountI (the empty-code
+// hash for every other account kind), nil for a missing account. It is what StateDB.getStateObject loads into the cache,
+// i.e. the starting point of the balances that Commit writes back.
+
+/*@
+alias AccI github.com/cosmos/cosmos-sdk/x/auth/types.AccountI
+specfunc is_ethacct(a AccI) bool = implements(a, "github.com/haqq-network/haqq/types.EthAccountI")
+
+// balance of addr in the EVM denomination, as a private big.Int (never an alias of keeper state)
+func (*Keeper).GetBalance
+    let a = acc_of_bytes(addr_bytes(addr))
+    let d = evm_params.EvmDenom
+    requires nonnil: k != nil && k.bankKeeper != nil
+    ensures c02_balance: d != "" ==> *result == bank_bal[a][d]
+    // "node is pruned" sentinel of the code: unreachable with validated params (Params.Validate rejects an empty denomination)
+    ensures sentinel: d == "" ==> *result == 0 - 1
+    ensures private: result != nil && fresh(result)
+
+func (*Keeper).GetAccountWithoutBalance
+    let acct = auth_account(k.accountKeeper, ctx, convto(addr_bytes(addr), AccAddr))
+    requires nonnil: k != nil && k.accountKeeper != nil
+    ensures missing: acct == nil ==> result == nil
+    ensures found: acct != nil ==> result != nil && fresh(result) && result.Nonce == acct_seq(acct) && result.Balance == nil
+    ensures codehash_eth: acct != nil && is_ethacct(acct) ==> result.CodeHash == hash_bytes(acct_codehash(acct))
+    ensures codehash_other: acct != nil && !is_ethacct(acct) ==> result.CodeHash == glob_types_EmptyCodeHash
+
+func (*Keeper).GetAccount
+    let acct = auth_account(k.accountKeeper, ctx, convto(addr_bytes(addr), AccAddr))
+    let a = acc_of_bytes(addr_bytes(addr))
+    let d = evm_params.EvmDenom
+    requires nonnil: k != nil && k.accountKeeper != nil && k.bankKeeper != nil
+    ensures missing: acct == nil ==> result == nil
+    ensures found: acct != nil ==> result != nil && fresh(result) && result.Nonce == acct_seq(acct)
+    ensures c02_balance: acct != nil && d != "" ==> result.Balance != nil && *result.Balance == bank_bal[a][d]
+    ensures private: acct != nil ==> result.Balance != nil && fresh(result.Balance)
+    ensures codehash_eth: acct != nil && is_ethacct(acct) ==> result.CodeHash == hash_bytes(acct_codehash(acct))
+    ensures codehash_other: acct != nil && !is_ethacct(acct) ==> result.CodeHash == glob_types_EmptyCodeHash
+    // no `modifies`: the frame obligations prove that neither the bank / supply worlds nor any heap object is written
+
+// nonce = account sequence, 0 for a missing account
+func (*Keeper).GetNonce
+    let acct = auth_account(k.accountKeeper, ctx, convto(addr_bytes(addr), AccAddr))
+    requires nonnil: k != nil && k.accountKeeper != nil
+    ensures result == ite(acct == nil, 0, acct_seq(acct))
+@*/
